@@ -166,6 +166,19 @@ def cmp_views(kind, obj, items, rng):
         sw[0], sw[1] = sw[1], sw[0]
         out.append({"other": sw, "eq": bool(obj == rebuild(kind, sw))})
     if kind != "smchart":
+        # a twin in which ONE key is spelled the other way (standard <-> legacy alias), same value, same position:
+        # a different mapping, so never equal
+        pairs = {"STOPS": "FREEZES", "FREEZES": "STOPS", "BGCHANGES": "ANIMATIONS", "ANIMATIONS": "BGCHANGES",
+                 "NOTES": "NOTES2", "NOTES2": "NOTES"}
+        have = {e["k"] for e in items}
+        for i, e in enumerate(items):
+            if e["k"] in pairs and pairs[e["k"]] not in have:
+                ren = [dict(x) for x in items]
+                ren[i]["k"] = pairs[e["k"]]
+                out.append({"other": ren, "eq": bool(obj == rebuild(kind, ren)) or not bool(obj != rebuild(kind, ren))})
+                out.append({"other": ren, "eq": bool(rebuild(kind, ren) == obj)})
+                break
+    if kind != "smchart":
         # a twin with one key MORE and one with one key LESS, compared in both directions
         more = [dict(e) for e in items] + [{"k": "ZZEXTRA", "v": "x"}]
         out.append({"other": more, "eq": bool(obj == rebuild(kind, more))})
